@@ -172,11 +172,30 @@ def step1 (st : St) (op impl : String) : St × StepOut :=
       (if terminal.length == 1 then [] else ["terminal-event-count"]) ++
       (if kv iw "st" == some "6" then [] else ["not-stopped-at-end"])
     (st, { model := impl, oracle := orc.eraseDups, nontrivial := true })
+  | "xtimeout" :: _ :: opts =>
+    -- free-running, real clock: `kind=<wait|stop_and_wait|drain_and_wait> d=<µs>` |
+    -- `res=<ok|timeout|err> el=<µs> st=<u8> ev=<k> fin=<u8> term=<k>`; the target cannot finish before the
+    -- harness lets it, so the call must report the timeout, no earlier than `d` (and within a generous real-time
+    -- bound); a timed-out `wait` has no effect on the actor (still Running = 2, no terminal event); afterwards
+    -- the actor stops normally with exactly one terminal event
+    let kind := (opts.findSome? fun w => if w.startsWith "kind=" then some (w.drop 5).toString else none).getD ""
+    let d := (opts.findSome? fun w => if w.startsWith "d=" then (w.drop 2).toString.toNat? else none)
+    let el := (kv iw "el").bind (·.toNat?)
+    let orc : List String := match d, el with
+      | some d, some el =>
+        (if kv iw "res" == some "timeout" then [] else ["timeout-missed"]) ++
+        (if d ≤ el then [] else ["timeout-early"]) ++
+        (if el ≤ d + 3000000 then [] else ["timeout-late"]) ++
+        (if kind == "wait" && !(kv iw "st" == some "2" && kv iw "ev" == some "0") then ["timeout-effect"] else []) ++
+        (if kv iw "term" == some "1" then [] else ["terminal-event-count"]) ++
+        (if kv iw "fin" == some "6" then [] else ["not-stopped-at-end"])
+      | _, _ => ["unparsable"]
+    (st, { model := impl, oracle := orc, nontrivial := true })
   | _ => (st, { model := "bad-op" })
 
 def step (st : St) (op impl : String) : St × StepOut :=
   let (st', out) := step1 st op impl
-  if st.diverged && !(op.startsWith "case ") && !(op.startsWith "xstress ") then (st', { out with model := impl })
+  if st.diverged && !(op.startsWith "case ") && !(op.startsWith "xstress ") && !(op.startsWith "xtimeout ") then (st', { out with model := impl })
   else if out.model != impl then ({ st' with diverged := true }, out)
   else (st', out)
 
